@@ -94,7 +94,7 @@ class BaseMultiportMemory(Elaboratable):
 
         self.shape = Shape.cast(shape)
         self.depth = depth
-        self.init = init
+        self.init = list(init)  # handed to several inner memories: a one-shot iterable would reach only the first
         self.attrs = attrs
         self.src_loc = src_loc_at
 
